@@ -161,6 +161,7 @@ func c01Case(w *core.Worker, i int) {
 	r := w.Rng(i, "")
 	p := genTxProc(r, r.Range(4, 12))
 	base := core.FreshDir(w.Work, "base")
+	_ = os.WriteFile(filepath.Join(w.Work, "noop.sql"), []byte("PRINT 'sourced';\n"), 0644)
 	core.WriteFiles(base, p.Files)
 	baseSnap := core.TakeSnap(base)
 	initial := map[string][][]string{}
@@ -296,10 +297,16 @@ func c01Case(w *core.Worker, i int) {
 		}
 		sigPoints = append(sigPoints, commitPts[k])
 	}
-	for _, pt := range sigPoints {
-		for _, sg := range []string{"INT", "TERM"} {
+	for pk, pt := range sigPoints {
+		for sk, sg := range []string{"INT", "TERM"} {
 			env := []string{fmt.Sprintf("VERIF_SIGNAL_AT=%s:%s", pt, sg)}
 			variant := fmt.Sprintf("SIG%s@%s", sg, pt)
+			if (pk+sk)%3 == 0 {
+				// the same signal a second time as soon as the first has been taken: still a catchable way of ending
+				env = append(env, "VERIF_SIGNAL_TWICE=1")
+				variant = fmt.Sprintf("SIG%sx2@%s", sg, pt)
+				w.Count("runs_with_a_repeated_signal", 1)
+			}
 			w.Note("signal_points", pointName(pt))
 			d, vr := runTx(w, base, p.Text(), env, "var")
 			txJudge(w, p, d, vr, initial, baseSnap, variant, env)
